@@ -543,9 +543,13 @@ func (e *fnEnc) appendBuiltin(st *state, at ssa.Value, c *ssa.CallCommon) {
 	e.assume(st, and(app("bvuge", ncap, newlen), app("bvule", ncap, "#x0000010000000000")))
 	// length overflow (would panic "growslice: len out of range")
 	e.oblige(st, "make-len", "append", c.Pos(), app("bvule", newlen, "#x0000800000000000"))
-	res := e.define("appres", sortSlice, ite(inplace,
-		fmt.Sprintf("(mkslice (s_base %s) (s_off %s) %s (s_cap %s))", s, s, newlen, s),
-		fmt.Sprintf("(mkslice %s #x0000000000000000 %s %s)", nbase, newlen, ncap)))
+	// opaque constant (not a macro) so that it can appear in quantifier patterns
+	res := e.declare("appres", sortSlice)
+	e.emit(fmt.Sprintf("(assert (= %s_b %s))\n(assert (= %s_o %s))\n(assert (= %s_l %s))\n(assert (= %s_c %s))",
+		res, ite(inplace, app("s_base", s), nbase),
+		res, ite(inplace, app("s_off", s), bvLit(64, 0)),
+		res, newlen,
+		res, ite(inplace, app("s_cap", s), ncap)))
 	e.vals[at] = res
 	if es.kind == skStruct || es.kind == skArray {
 		e.appendStructElems(st, c, s, tsl, constN, inplace, nbase, res, sl.Elem())
@@ -575,6 +579,7 @@ func (e *fnEnc) appendBuiltin(st *state, at ssa.Value, c *ssa.CallCommon) {
 			term = fmt.Sprintf("(store %s %s %s)", term, dst, src)
 		}
 		e.setHeap(st, key, es, term)
+		e.appendPrefixFact(st, key, es, h, s, res)
 		return
 	}
 	// general case: region copy
@@ -588,6 +593,22 @@ func (e *fnEnc) appendBuiltin(st *state, at ssa.Value, c *ssa.CallCommon) {
 	region := fmt.Sprintf("(and ((_ is idx) a) (= (idx_b a) (s_base %s)) (bvule (bvadd (s_off %s) (s_len %s)) (idx_i a)) (bvult (idx_i a) (bvadd (s_off %s) %s)))", res, res, s, res, newlen)
 	e.emit(fmt.Sprintf("(assert (forall ((a Ref)) (! (= (select %s a) (ite %s %s (select %s a))) :pattern ((select %s a)))))", nh, region, srcCell, h, nh))
 	st.heap[key] = nh
+	e.appendPrefixFact(st, key, es, h, s, res)
+	// the appended elements, indexed from the result (consequence, stated for matching)
+	if !isStr {
+		e.assume(st, fmt.Sprintf("(forall ((ai (_ BitVec 64))) (! (=> (bvult ai %s) (= (select %s (idx (s_base %s) (bvadd (s_off %s) (bvadd (s_len %s) ai)))) (select %s (idx (s_base %s) (bvadd (s_off %s) ai))))) :pattern ((select %s (idx (s_base %s) (bvadd (s_off %s) (bvadd (s_len %s) ai))))) :pattern ((select %s (idx (s_base %s) (bvadd (s_off %s) ai))))))",
+			tlen, nh, res, res, s, h, tsl, tsl, nh, res, res, s, h, tsl, tsl))
+	}
+}
+
+// appendPrefixFact: the first len(s) elements of the result of append(s, ...) are the
+// elements of s, whether the append was in place or reallocated (a consequence of the
+// exact model, stated uniformly so that instantiation needs no case split).
+func (e *fnEnc) appendPrefixFact(st *state, key string, es *Sort, hOld, s, res string) {
+	hNew := e.heap(st, key, es)
+	e.hasQuant = true
+	e.assume(st, fmt.Sprintf("(forall ((ai (_ BitVec 64))) (! (=> (bvult ai (s_len %s)) (= (select %s (idx (s_base %s) (bvadd (s_off %s) ai))) (select %s (idx (s_base %s) (bvadd (s_off %s) ai))))) :pattern ((select %s (idx (s_base %s) (bvadd (s_off %s) ai)))) :pattern ((select %s (idx (s_base %s) (bvadd (s_off %s) ai))))))",
+		s, hNew, res, res, hOld, s, s, hNew, res, res, hOld, s, s))
 }
 
 func (e *fnEnc) frameCheck2(st *state, cond string, pos token.Pos, what string) {
